@@ -24,6 +24,7 @@ Two halves:
   an oracle built on it never demands more than "no silently wrong parts".
 """
 import codecs
+import re
 import unicodedata
 
 CRLF = b'\r\n'
@@ -36,6 +37,7 @@ _TOKEN = frozenset(b"!#$%&'*+-.0123456789ABCDEFGHIJKLMNOPQRSTUVWXYZ^_`abcdefghij
 _ATTR_CHAR = frozenset(b"!#$&+-.0123456789ABCDEFGHIJKLMNOPQRSTUVWXYZ^_`abcdefghijklmnopqrstuvwxyz|~")
 _SECURE_OK = frozenset('abcdefghijklmnopqrstuvwxyzABCDEFGHIJKLMNOPQRSTUVWXYZ0123456789.-_')
 
+_LANG_TAG = re.compile(r'^[A-Za-z]{1,8}(-[A-Za-z0-9]{1,8})*$')     # RFC 5646, loosely
 FILLER = 0x23      # '#': not a bchar, not CR/LF/'-' -> can never be part of a delimiter
 
 
@@ -289,12 +291,12 @@ def text_of(ctype, content, default_charset='utf-8'):
     charset = params.get('charset', default_charset)
     try:
         codecs.lookup(charset)
-    except LookupError:
+    except (LookupError, ValueError):
         # CPython decodes b'' without looking the codec up
         return ('error', None) if content else ('unsure', None)
     try:
         return ('ok', content.decode(charset))
-    except ValueError:
+    except (ValueError, LookupError):
         return ('error', None)
 
 
@@ -326,12 +328,9 @@ def _unquote_pct(raw):
         c = raw[i]
         if c == 0x25:
             h = raw[i + 1:i + 3]
-            if len(h) != 2:
+            if len(h) != 2 or not all(c in b'0123456789abcdefABCDEF' for c in h):
                 return None
-            try:
-                out.append(int(h.decode('ascii'), 16))
-            except ValueError:
-                return None
+            out.append(int(h.decode('ascii'), 16))
             i += 3
         elif c in _ATTR_CHAR:
             out.append(c)
@@ -389,7 +388,7 @@ def parse_disposition(value):
             cs, lang, pct = bits
             if cs.lower() not in ('utf-8', 'iso-8859-1'):
                 return None
-            if lang and not all(c.isalnum() or c == '-' for c in lang):
+            if lang and not _LANG_TAG.match(lang):
                 return None
             if not pct:
                 return None
